@@ -115,8 +115,11 @@ type Op struct {
 	N       int
 	Rewind  bool
 	Entries []WLEntry
-	FaultK  int  // c02 fault twins: arm the node database to fail its k-th GetNode during this op (0 = no fault)
-	Faulted bool // recorded: the op returned the injected error and was retried
+	FaultK  int // c02 fault twins: arm the node database to fail its k-th GetNode during this op (0 = no fault)
+	// FaultKind: "db" (default; the k-th GetNode returns an error) or "ctx" (at the
+	// k-th GetNode the context of the op is cancelled and the read proceeds)
+	FaultKind string
+	Faulted   bool // recorded: the op returned the injected error and was retried
 }
 
 func (o Op) MarshalJSON() ([]byte, error) {
@@ -140,9 +143,17 @@ func (o Op) MarshalJSON() ([]byte, error) {
 	}
 	if o.FaultK > 0 {
 		m["fault_k"] = o.FaultK
+		m["fault_kind"] = o.faultKind()
 		m["faulted"] = o.Faulted
 	}
 	return json.Marshal(m)
+}
+
+func (o Op) faultKind() string {
+	if o.FaultKind == "ctx" {
+		return "ctx"
+	}
+	return "db"
 }
 
 func (o *Op) UnmarshalJSON(b []byte) error {
@@ -154,6 +165,7 @@ func (o *Op) UnmarshalJSON(b []byte) error {
 		Rewind  bool      `json:"rewind"`
 		Entries []WLEntry `json:"entries"`
 		FaultK  int       `json:"fault_k"`
+		FKind   string    `json:"fault_kind"`
 		Faulted bool      `json:"faulted"`
 	}
 	if err := json.Unmarshal(b, &raw); err != nil {
@@ -167,7 +179,7 @@ func (o *Op) UnmarshalJSON(b []byte) error {
 	if err != nil {
 		return err
 	}
-	*o = Op{K: raw.K, Key: nn(k), Val: nn(v), N: raw.N, Rewind: raw.Rewind, Entries: raw.Entries, FaultK: raw.FaultK, Faulted: raw.Faulted}
+	*o = Op{K: raw.K, Key: nn(k), Val: nn(v), N: raw.N, Rewind: raw.Rewind, Entries: raw.Entries, FaultK: raw.FaultK, Faulted: raw.Faulted, FaultKind: raw.FKind}
 	return nil
 }
 
@@ -408,7 +420,6 @@ func trieDepth(keys [][]byte) int {
 const findingRules = "a failing case (S violation, panic or unexpected error) of mode PID can only be a finding if the IDENTICAL history (same operations, backend, write-log option; for pair/twin violations both members) re-run in a fresh database with ample capacities node_cap=5000, value_cap=16777216 is clean; if that re-run fails too the failure is an ordinary violation reported on the ample-capacity variant (note: fails with ample capacities too) and no finding is emitted. With a clean ample re-run, rules tried in this order: " +
 	"(1) PID:node-capacity-not-above-path-depth iff 0 < node_cap <= D+1, D = the maximum so far of the number of internal nodes on a root-to-leaf path of the compressed binary trie over the tree-level reference key set; " +
 	"(2) PID:embedded-leaf-evicted-under-dirty-internal-node iff 0 < value_cap < 16777216 and, at or before the first failure, either mkvs.VerifScan reported DirtyNodeWithEvictedLeaf > 0 or the tree-level reference key set contained a key that is a proper byte-prefix of another key (the empty key with any other key included); " +
-	"(0, mode c02 fault twins only, tried before the others) C02:failed-remove-drops-child-pointers iff a fault armed on a remove fired before the failure and the same twin with the faults on removes taken out (faults on inserts kept) is clean; " +
 	"(3) otherwise it is an ordinary violation. A pair/twin violation is attributed to the finding of a member that satisfies (1) or (2) with its flags over its whole run."
 
 const (
@@ -636,12 +647,15 @@ func isInjected(err error) bool {
 }
 
 // faultDB forwards everything to the real node database; when armed, the
-// k-th GetNode call (counted from arming) fails once with errInjected.
+// k-th GetNode call (counted from arming) fails once with errInjected, or,
+// when armed with a cancel function, cancels the operation's context and
+// lets the read proceed.
 type faultDB struct {
 	db.NodeDB
 	calls     int
 	countdown int
 	fired     bool
+	cancel    context.CancelFunc
 }
 
 func (f *faultDB) GetNode(root node.Root, ptr *node.Pointer) (node.Node, error) {
@@ -650,17 +664,22 @@ func (f *faultDB) GetNode(root node.Root, ptr *node.Pointer) (node.Node, error) 
 		f.countdown--
 		if f.countdown == 0 {
 			f.fired = true
-			return nil, errInjected
+			if f.cancel == nil {
+				return nil, errInjected
+			}
+			f.cancel()
 		}
 	}
 	return f.NodeDB.GetNode(root, ptr)
 }
 
-func (f *faultDB) arm(k int) { f.countdown, f.fired = k, false }
+func (f *faultDB) arm(k int, cancel context.CancelFunc) {
+	f.countdown, f.fired, f.cancel = k, false, cancel
+}
 
 // disarm reports whether the fault fired since arming.
 func (f *faultDB) disarm() bool {
-	f.countdown = 0
+	f.countdown, f.cancel = 0, nil
 	return f.fired
 }
 
